@@ -194,6 +194,11 @@ pub struct Net {
     /// per-party hash of its observation history (issues, completions, received contents, poll boundaries)
     pub hist: Vec<u64>,
     pub probes: Vec<crate::hooks::ProbeRec>,
+    /// (from, to, k): the k-th send on that pair cannot complete while the hold is set
+    pub hold_send: Option<(usize, usize, usize)>,
+    /// (from, to, k): the k-th delivery on that pair is not offered while the hold is set
+    pub hold_deliver: Option<(usize, usize, usize)>,
+    pub delivered_ctr: Vec<usize>,
     pub alloc: Vec<crate::alloc::Stats>,
 }
 
@@ -222,6 +227,9 @@ impl Net {
             record_payloads: true,
             hist: vec![0x1234_5678_9abc_def0; n],
             probes: vec![],
+            hold_send: None,
+            hold_deliver: None,
+            delivered_ctr: vec![0; n * n],
             alloc: vec![Default::default(); n],
         }
     }
@@ -329,7 +337,7 @@ impl Future for SendFut<'_> {
                 net.outstanding[k] -= 1;
                 this.done = true;
                 Poll::Ready(Err(VErr::Closed))
-            } else if net.has_room(me, this.to) {
+            } else if net.has_room(me, this.to) && net.hold_send != Some((me, this.to, net.pair_ctr[me * n + this.to])) {
                 let label = net.ops[op].label.clone();
                 let ord = net.next_ord(me, this.to, Dir::Send, &label);
                 let data = this.data.take().expect("polled after completion");
@@ -802,7 +810,7 @@ impl<T: Send + 'static> Execution<T> {
         let mut v = vec![];
         for i in 0..self.n {
             for j in 0..self.n {
-                if i != j && !net.q[i * self.n + j].inflight.is_empty() && net.capacity_allows_delivery(i, j) {
+                if i != j && !net.q[i * self.n + j].inflight.is_empty() && net.capacity_allows_delivery(i, j) && net.hold_deliver != Some((i, j, net.delivered_ctr[i * self.n + j])) {
                     v.push(Action::Deliver(i as u8, j as u8));
                 }
             }
@@ -852,6 +860,7 @@ impl<T: Send + 'static> Execution<T> {
                     let n = net.n;
                     net.tick();
                     let idx = net.q[i * n + j].inflight.pop_front().expect("deliver on empty");
+                    net.delivered_ctr[i * n + j] += 1;
                     net.q[i * n + j].inbox.push_back(idx);
                     net.q[i * n + j].recv_waiter.take()
                 };
@@ -929,6 +938,22 @@ impl<T: Send + 'static> Execution<T> {
 
     pub fn all_done(&self) -> bool {
         self.outcomes.iter().all(|o| o.is_some())
+    }
+
+    /// Releases any hold and wakes a sender that was blocked by it.
+    pub fn release_holds(&mut self) {
+        let w = {
+            let mut net = self.net.lock().unwrap();
+            let n = net.n;
+            net.hold_deliver = None;
+            match net.hold_send.take() {
+                Some((f, t, _)) => net.q[f * n + t].send_waiter.take(),
+                None => None,
+            }
+        };
+        if let Some(w) = w {
+            w.wake();
+        }
     }
 }
 
